@@ -25,6 +25,7 @@ type params struct {
 	F        int
 	P        int
 	Refuse   bool // broker refuses the resume of the first stream (non-conflict code)
+	NoClose   bool // (with Refuse) the close request the library sends for the refused stream is never answered
 	OpenScope bool // schedule deviations in the open calls themselves (between the open response and the subscriptions)
 	Zero     bool // the broker numbers stream aliases from 0
 	During   bool // the link is cut first (redial takes 3 s) and the InFlight call is issued during the outage
@@ -41,6 +42,9 @@ func (p params) name() string {
 	}
 	if p.During {
 		return fmt.Sprintf("%s/%s/F%d/P%d/during-outage", p.Streams, p.InFlight, p.F, p.P)
+	}
+	if p.NoClose {
+		return fmt.Sprintf("%s/%s/F%d/P%d/refuse%v/noclose", p.Streams, p.InFlight, p.F, p.P, p.Refuse)
 	}
 	if p.OpenScope {
 		return fmt.Sprintf("%s/%s/F%d/P%d/openscope", p.Streams, p.InFlight, p.F, p.P)
@@ -75,6 +79,8 @@ func scenarios(tier string) []vlib.Scenario {
 	add(params{Kind: "e", Streams: "up+down", InFlight: "none", F: 1, Conflict: true})
 	add(params{Kind: "e", Streams: "upR+upU", InFlight: "none", F: 1, Conflict: true})
 	add(params{Kind: "e", Streams: "upR+upU", InFlight: "none", F: 1, Refuse: true})
+	add(params{Kind: "e", Streams: "up+down", InFlight: "none", F: 1, Refuse: true, NoClose: true})
+	add(params{Kind: "e", Streams: "down", InFlight: "none", F: 1, Refuse: true, NoClose: true})
 	add(params{Kind: "e", Streams: "upR+upU", InFlight: "none", F: 1, Refuse: true, Zero: true})
 	add(params{Kind: "e", Streams: "upR+upU", InFlight: "none", F: 1, Refuse: true, Zero: true, P: 1})
 	add(params{Kind: "e", Streams: "up+down", InFlight: "none", F: 1, P: 1})
@@ -244,6 +250,17 @@ func (w *world) script() *sim.Script {
 			return false, 0
 		}
 		return true, 0
+	}
+	if w.p.NoClose {
+		s.OnMessage = func(b *sim.Broker, c *sim.BConn, m message.Message) bool {
+			switch m.(type) {
+			case *message.UpstreamCloseRequest, *message.DownstreamCloseRequest:
+				if c.Idx > 0 && w.Phase != "close" {
+					return true // never answered
+				}
+			}
+			return false
+		}
 	}
 	if w.p.Conflict {
 		s.UpResumeResult = func(c *sim.BConn, u *sim.UpStream, attempt int) message.ResultCode {
@@ -505,6 +522,9 @@ func run(sc vlib.Scenario, cfg vsched.Config) (*vsched.Result, vlib.Verdict) {
 				resumedOnLive = true
 			}
 		}
+		if w.p.Refuse && i == 0 {
+			resumedOnLive = false // its resume request was refused
+		}
 		if !closed && !resumedOnLive && reached {
 			v.Fail("C05.detached", fmt.Sprintf("upstream/dev=%v", dev), "upstream %s was neither resumed on the live incarnation %d (resume requests on %v) nor reported closed (closed events %v)", u.Name, live.Idx, bu.Resumes, u.Closed)
 		}
@@ -531,6 +551,9 @@ func run(sc vlib.Scenario, cfg vsched.Config) (*vsched.Result, vlib.Verdict) {
 			if cn == live.Idx {
 				resumedOnLive = true
 			}
+		}
+		if w.p.Refuse && i == 0 && len(w.B.Ups) == 0 {
+			resumedOnLive = false // its resume request was refused
 		}
 		if !closed && !resumedOnLive && reached {
 			v.Fail("C05.detached", fmt.Sprintf("downstream/dev=%v", dev), "downstream %s was neither resumed on the live incarnation %d (resume requests on %v) nor reported closed (closed events %v)", d.Name, live.Idx, bd.Resumes, d.Closed)
